@@ -183,6 +183,92 @@ let c15 (toks : string list) : string =
                           Printf.sprintf "f%da=%s" i (ev "Function" "assemble_into" i) ]) fl;
     String.concat ";" !parts
 
+(* ------------------------------------------------------------ instructions *)
+let operand_text (o : M.operand) : string =
+  match o with
+  | M.OEnum (k, v) -> Printf.sprintf "E%s.%s" (string_of_int (int_of_string ("0x" ^ hex_of_n k))) (hex_of_n v)
+  | M.OIdRef v -> "R" ^ hex_of_n v
+  | M.OIdScope v -> "C" ^ hex_of_n v
+  | M.OIdMemSem v -> "M" ^ hex_of_n v
+  | M.OLit32 v -> "L" ^ hex_of_n v
+  | M.OLit64 v -> "Q" ^ hex_of_n v
+  | M.OExtInst v -> "X" ^ hex_of_n v
+  | M.OSpecOp v -> "P" ^ hex_of_n v
+  | M.OStr s -> "S" ^ hex_of_bytes s
+
+let opt_text (o : n option) : string = match o with Some v -> hex_of_n v | None -> "-"
+
+let inst_text (i : M.inst) : string =
+  Printf.sprintf "%s/%s/%s/%s" (hex_of_n i.M.i_opcode) (opt_text i.M.i_rtype) (opt_text i.M.i_rid)
+    (if i.M.i_ops = [] then "-" else String.concat "," (List.map operand_text i.M.i_ops))
+
+let operand_of_text (t : string) : M.operand =
+  let c = t.[0] and r = String.sub t 1 (String.length t - 1) in
+  match c with
+  | 'R' -> M.OIdRef (n_of_hex r) | 'C' -> M.OIdScope (n_of_hex r) | 'M' -> M.OIdMemSem (n_of_hex r)
+  | 'L' -> M.OLit32 (n_of_hex r) | 'Q' -> M.OLit64 (n_of_hex r) | 'X' -> M.OExtInst (n_of_hex r)
+  | 'P' -> M.OSpecOp (n_of_hex r)
+  | 'S' -> M.OStr (bytes_of_hex r)
+  | 'E' -> (match String.split_on_char '.' r with
+            | [k; v] -> M.OEnum (n_of_int (int_of_string k), n_of_hex v)
+            | _ -> failwith "bad E operand")
+  | _ -> failwith ("bad operand " ^ t)
+
+let inst_of_text (t : string) : M.inst =
+  match String.split_on_char '/' t with
+  | [op; rt; rid; ops] ->
+    let o s = if s = "-" then None else Some (n_of_hex s) in
+    { M.i_opcode = n_of_hex op; M.i_rtype = o rt; M.i_rid = o rid;
+      M.i_ops = if ops = "-" then [] else List.map operand_of_text (String.split_on_char ',' ops) }
+  | _ -> failwith "bad inst"
+
+let perr_text (e : M.perr) : string =
+  let h = hex_of_n in
+  match e with
+  | M.PComplete -> "COMPLETE" | M.PStop -> "STOP"
+  | M.PConsumerError k -> "CERR:script" ^ string_of_int (int_of_string ("0x" ^ h k))
+  | M.PHeaderIncomplete d -> "HIN:" ^ derr_str d
+  | M.PHeaderIncorrect -> "HBAD" | M.PEndianness -> "ENDIAN"
+  | M.PWordCountZero (o, i) -> Printf.sprintf "WCZ:%s:%s" (h o) (h i)
+  | M.POpcodeUnknown (o, i, c) -> Printf.sprintf "OPU:%s:%s:%s" (h o) (h i) (h c)
+  | M.POperandExpected (o, i) -> Printf.sprintf "OEX:%s:%s" (h o) (h i)
+  | M.POperandExceeded (o, i) -> Printf.sprintf "OXC:%s:%s" (h o) (h i)
+  | M.POperandError d -> "OE:" ^ derr_str d
+  | M.PTypeUnsupported (o, i) -> Printf.sprintf "TUN:%s:%s" (h o) (h i)
+  | M.PSpecOpIncorrect (o, i) -> Printf.sprintf "SCI:%s:%s" (h o) (h i)
+
+let header_text (hd : M.header) : string =
+  String.concat "." (List.map hex_of_n [hd.M.h_magic; hd.M.h_version; hd.M.h_generator; hd.M.h_bound; hd.M.h_reserved])
+
+let script_of (s : string) : (nat * bool) option =
+  if s = "-" then None else
+  match String.split_on_char ':' s with
+  | [k; e] -> Some (nat_of_int (int_of_string k), e = "E")
+  | _ -> None
+
+let do_asm (args : string list) : string =
+  match args with
+  | [t] -> (match M.run_asm_case (inst_of_text t) with
+            | Some ws -> "W:" ^ join_n "," ws
+            | None -> "BUILDERR")
+  | _ -> "BADCASE"
+
+let do_parse (args : string list) : string =
+  match args with
+  | [script; b] ->
+    let (st, r) = M.run_parse_case (script_of script) (bytes_of_hex b) in
+    let rs = match r with
+      | M.Ok _ -> "OK"
+      | M.Er e -> perr_text e
+      | M.Panic _ -> "PANIC" in
+    if rs = "PANIC" then "PANIC" else
+    let code = function c when c = M.N0 -> "i" | c -> (match hex_of_n c with "1" -> "f" | "2" -> "h" | _ -> "n") in
+    Printf.sprintf "R=%s H=%s I=%s T=%s" rs
+      (match st.M.r_header with Some hd -> header_text hd | None -> "-")
+      (if st.M.r_insts = [] then "-" else String.concat ";" (List.rev_map inst_text st.M.r_insts))
+      (String.concat "" (List.map code st.M.r_trace))
+  | _ -> "BADCASE"
+
 let c19long (args : string list) : string =
   match args with
   | [nh] ->
@@ -209,6 +295,8 @@ let () =
         | "c19long" :: r -> c19long r
         | "c11" :: r -> c11 r
         | "c15" :: r -> c15 r
+        | "asm" :: r -> do_asm r
+        | "parse" :: r -> do_parse r
         | _ -> "BADCASE" in
       print_string out; print_char '\n'
     done
